@@ -58,7 +58,7 @@ func qRef(sp *spec, comm []int, gamma float64) float64 {
 func checkQ(t *vlib.T, b *built) {
 	sp := b.sp
 	n := sp.n
-	if sp.edges() == 0 {
+	if sp.edges() == 0 && sp.self == 0 {
 		// Q divides by the total edge weight; undefined (0/0), don't-care.
 		t.Outcome("no-edges-skipped")
 		return
@@ -88,7 +88,7 @@ func checkQ(t *vlib.T, b *built) {
 	if n >= 2 {
 		t.Nontrivial()
 	}
-	t.Outcome(fmt.Sprintf("n=%d directed=%v weighted=%v distinctQ>=%d", n, sp.directed, sp.weighted, pow2floor(len(seen))))
+	t.Outcome(fmt.Sprintf("n=%d directed=%v weighted=%v self=%v distinctQ>=%d", n, sp.directed, sp.weighted, sp.self, pow2floor(len(seen))))
 	t.Detail(map[string]any{"graph": sp.String(), "ids": b.ids})
 }
 
@@ -108,8 +108,12 @@ func genQ(g *vlib.G) {
 		{n: 2, directed: true}, {n: 3, directed: true},
 		{n: 2, directed: true, weighted: true}, {n: 3, directed: true, weighted: true},
 		{n: 4, directed: true},
-		{n: 5, weighted: true, stride: vlib.Pick(g, 199, 1), offset: vlib.Pick(g, 7, 0), rotate: true},
-		{n: 4, directed: true, weighted: true, stride: vlib.Pick(g, 1999, 13), offset: 6},
+		{n: 5, weighted: true, rotate: true},
+		{n: 4, directed: true, weighted: true, stride: vlib.Pick(g, 4, 1), offset: vlib.Pick(g, 1, 0), rotate: true},
+		// every node carries the self weight 1 resp. 2 (A_ii of the formula)
+		{n: 2, weighted: true, self: 1}, {n: 3, weighted: true, self: 2}, {n: 4, weighted: true, self: 1},
+		{n: 2, directed: true, weighted: true, self: 2}, {n: 3, directed: true, weighted: true, self: 1},
+		{n: 5, weighted: true, self: 2, stride: vlib.Pick(g, 23, 3), offset: 2},
 	}
 	for _, s := range spaces {
 		forGraphs(s, s.stride <= 1 && !s.rotate, func(key string, mk func() *built) {
@@ -125,19 +129,27 @@ func genQ(g *vlib.G) {
 
 var layerWeights = []float64{-1, 0.5, 1}
 
-// weightOptions are the layer weight vectors for two layers: nil and every
-// pair over {-1, 0.5, 1}.
-func weightOptions() [][]float64 {
+// weightOptions are the layer weight vectors for L layers: nil and every
+// vector over {-1, 0.5, 1}.
+func weightOptions(L int) [][]float64 {
 	out := [][]float64{nil}
-	for _, a := range layerWeights {
-		for _, b := range layerWeights {
-			out = append(out, []float64{a, b})
+	total := ipow(len(layerWeights), L)
+	for k := 0; k < total; k++ {
+		ws := make([]float64, L)
+		d := k
+		for l := L - 1; l >= 0; l-- {
+			ws[l] = layerWeights[d%len(layerWeights)]
+			d /= len(layerWeights)
 		}
+		out = append(out, ws)
 	}
 	return out
 }
 
-var resolutionOptions = [][]float64{nil, {2}, {0.5, 2}, {1}}
+// resolutionOptions are nil (all 1), a global value, per-layer values, [1].
+func resolutionOptions(L int) [][]float64 {
+	return [][]float64{nil, {2}, []float64{0.5, 2, 1}[:L], {1}}
+}
 
 func layerRes(res []float64, l int) float64 {
 	switch len(res) {
@@ -171,27 +183,45 @@ func signed(sp *spec, sign float64) *spec {
 	return &c
 }
 
-// multiplex is a two-layer multiplex graph built for one weight vector.
+// multiplex is a multiplex graph of two or three layers built for one weight vector.
 type multiplex struct {
 	n        int
 	directed bool
 	ids      []int64
-	sp       [2]*spec // with signed weights
-	layers   [2]*built
+	sp       []*spec // with signed weights
+	layers   []*built
 	g        community.Multiplex
 }
 
-func buildMultiplex(s graphSpace, i0, i1 int, ws []float64, idKind, order int) *multiplex {
+func (m *multiplex) String() string {
+	var parts []string
+	for _, sp := range m.sp {
+		parts = append(parts, sp.String())
+	}
+	return strings.Join(parts, " | ")
+}
+
+func buildMultiplex(s graphSpace, idxs []int, ws []float64, idKind, order int) *multiplex {
 	m := &multiplex{n: s.n, directed: s.directed, ids: idMap(idKind, s.n)}
-	for l, idx := range []int{i0, i1} {
-		m.sp[l] = signed(mkSpec(s.n, s.directed, s.weighted, idx), layerW(ws, l))
-		m.layers[l] = build(m.sp[l], idKind, (order+l)%nOrders)
+	var dl []graph.Directed
+	var ul []graph.Undirected
+	for l, idx := range idxs {
+		sp := signed(mkSpec(s.n, s.directed, s.weighted, idx), layerW(ws, l))
+		// the containers rotate over the layers
+		b := build(sp, idKind, (order+l)%nOrders, (idx+l)%nContainers)
+		m.sp = append(m.sp, sp)
+		m.layers = append(m.layers, b)
+		if s.directed {
+			dl = append(dl, b.g.(graph.Directed))
+		} else {
+			ul = append(ul, b.g.(graph.Undirected))
+		}
 	}
 	var err error
 	if s.directed {
-		m.g, err = community.NewDirectedLayers(m.layers[0].g.(graph.Directed), m.layers[1].g.(graph.Directed))
+		m.g, err = community.NewDirectedLayers(dl...)
 	} else {
-		m.g, err = community.NewUndirectedLayers(m.layers[0].g.(graph.Undirected), m.layers[1].g.(graph.Undirected))
+		m.g, err = community.NewUndirectedLayers(ul...)
 	}
 	if err != nil {
 		panic("harness: " + err.Error())
@@ -220,32 +250,32 @@ func qLayerRef(sp *spec, w, gamma float64, comm []int) float64 {
 	return w * total * qUndirectedRef(n, a, comm, gamma)
 }
 
-func checkQMultiplex(t *vlib.T, s graphSpace, i0, i1, idKind, order int) {
+func checkQMultiplex(t *vlib.T, s graphSpace, idxs []int, idKind, order int) {
 	evals := 0
-	for wi, ws := range weightOptions() {
-		m := buildMultiplex(s, i0, i1, ws, idKind, order)
+	L := len(idxs)
+	for wi, ws := range weightOptions(L) {
+		if L == 3 && wi > 0 && (wi+idxs[0]+idxs[1]+idxs[2])%3 != 0 {
+			continue // three layers: nil and a rotating third of the 27 weight vectors
+		}
+		m := buildMultiplex(s, idxs, ws, idKind, order)
 		for pi, comm := range partitions(s.n) {
-			for ri, res := range resolutionOptions {
+			for ri, res := range resolutionOptions(L) {
 				if (pi+ri+wi)%2 == 1 && len(res) == 1 && res[0] == 1 {
 					continue
 				}
-				var cs [][]graph.Node
-				if pi >= 0 {
-					cs = commsOf(m.ids, comm, pi+ri)
-				}
-				got := community.QMultiplex(m.g, cs, ws, res)
+				got := community.QMultiplex(m.g, commsOf(m.ids, comm, pi+ri), ws, res)
 				evals++
-				if len(got) != 2 {
-					t.Failf("QMultiplex returned %d values for 2 layers", len(got))
+				if len(got) != L {
+					t.Failf("QMultiplex returned %d values for %d layers", len(got), L)
 					return
 				}
-				for l := 0; l < 2; l++ {
+				for l := 0; l < L; l++ {
 					if m.sp[l].edges() == 0 {
 						continue // 0/0, don't-care
 					}
 					want := qLayerRef(m.sp[l], layerW(ws, l), layerRes(res, l), comm)
 					if !(math.Abs(got[l]-want) <= 1e-11) {
-						t.Failf("QMultiplex(layers %s | %s, partition %v, weights %v, resolutions %v)[%d] = %v, definition gives %v", m.sp[0], m.sp[1], comm, ws, res, l, got[l], want)
+						t.Failf("QMultiplex(layers %s, partition %v, weights %v, resolutions %v)[%d] = %v, definition gives %v", m, comm, ws, res, l, got[l], want)
 					}
 				}
 			}
@@ -256,12 +286,12 @@ func checkQMultiplex(t *vlib.T, s graphSpace, i0, i1, idKind, order int) {
 			single[i] = i
 		}
 		got := community.QMultiplex(m.g, nil, ws, nil)
-		for l := 0; l < 2; l++ {
+		for l := 0; l < L; l++ {
 			if m.sp[l].edges() == 0 {
 				continue
 			}
 			if want := qLayerRef(m.sp[l], layerW(ws, l), 1, single); !(math.Abs(got[l]-want) <= 1e-11) {
-				t.Failf("QMultiplex(layers %s | %s, nil, weights %v, nil)[%d] = %v, singleton partition gives %v", m.sp[0], m.sp[1], ws, l, got[l], want)
+				t.Failf("QMultiplex(layers %s, nil, weights %v, nil)[%d] = %v, singleton partition gives %v", m, ws, l, got[l], want)
 			}
 		}
 	}
@@ -269,9 +299,15 @@ func checkQMultiplex(t *vlib.T, s graphSpace, i0, i1, idKind, order int) {
 	if s.n >= 2 {
 		t.Nontrivial()
 	}
-	sp0, sp1 := mkSpec(s.n, s.directed, s.weighted, i0), mkSpec(s.n, s.directed, s.weighted, i1)
-	t.Outcome(fmt.Sprintf("%s emptylayers=%d", s.name(), b2i(sp0.edges() == 0)+b2i(sp1.edges() == 0)))
-	t.Detail(map[string]any{"layer0": sp0.String(), "layer1": sp1.String()})
+	empty := 0
+	detail := map[string]any{}
+	for l, idx := range idxs {
+		sp := mkSpec(s.n, s.directed, s.weighted, idx)
+		empty += b2i(sp.edges() == 0)
+		detail[fmt.Sprintf("layer%d", l)] = sp.String()
+	}
+	t.Outcome(fmt.Sprintf("%s layers=%d emptylayers=%d", s.name(), L, empty))
+	t.Detail(detail)
 }
 
 func b2i(b bool) int {
@@ -281,40 +317,61 @@ func b2i(b bool) int {
 	return 0
 }
 
-// forLayerPairs enumerates pairs of layers (i0,i1) of the space with the pair
-// index running over total^2; stride/offset apply to the pair index.
-func forLayerPairs(s graphSpace, stride, offset int, f func(key string, i0, i1, idKind, order int)) {
+// forLayerTuples enumerates L-tuples of layers of the space with the tuple
+// index running over total^L; stride/offset apply to the tuple index.
+func forLayerTuples(s graphSpace, L, stride, offset int, f func(key string, idxs []int, idKind, order int)) {
 	total := nGraphs(s.n, s.directed, s.weighted)
 	if stride == 0 {
 		stride = 1
 	}
-	for p := offset; p < total*total; p += stride {
-		i0, i1 := p/total, p%total
+	for p := offset; p < ipow(total, L); p += stride {
+		idxs := make([]int, L)
+		d := p
+		for l := L - 1; l >= 0; l-- {
+			idxs[l] = d % total
+			d /= total
+		}
 		idKind := p % 3
 		order := (p / 3) % nOrders
-		f(fmt.Sprintf("%s#%d|%d %s %s", s.name(), i0, i1, idMapNames[idKind], orderNames[order]), i0, i1, idKind, order)
+		key := s.name() + "#"
+		for l, i := range idxs {
+			if l > 0 {
+				key += "|"
+			}
+			key += fmt.Sprint(i)
+		}
+		f(fmt.Sprintf("%s %s %s", key, idMapNames[idKind], orderNames[order]), idxs, idKind, order)
 	}
 }
 
+type tupleSpace struct {
+	s                 graphSpace
+	L, stride, offset int
+	maxDev, maxRuns   int // louvain-multiplex only
+}
+
 func genQMultiplex(g *vlib.G) {
-	type sp struct {
-		s              graphSpace
-		stride, offset int
-	}
-	for _, x := range []sp{
-		{graphSpace{n: 2}, 1, 0}, {graphSpace{n: 3}, 1, 0},
-		{graphSpace{n: 2, weighted: true}, 1, 0},
-		{graphSpace{n: 3, weighted: true}, vlib.Pick(g, 3, 1), vlib.Pick(g, 1, 0)},
-		{graphSpace{n: 4}, vlib.Pick(g, 3, 1), vlib.Pick(g, 1, 0)},
-		{graphSpace{n: 2, directed: true}, 1, 0},
-		{graphSpace{n: 2, directed: true, weighted: true}, 1, 0},
-		{graphSpace{n: 3, directed: true}, vlib.Pick(g, 5, 1), vlib.Pick(g, 2, 0)},
-		{graphSpace{n: 3, directed: true, weighted: true}, vlib.Pick(g, 499, 29), 17},
-		{graphSpace{n: 4, weighted: true}, vlib.Pick(g, 1999, 101), 101},
+	for _, x := range []tupleSpace{
+		{s: graphSpace{n: 2}, L: 2}, {s: graphSpace{n: 3}, L: 2},
+		{s: graphSpace{n: 2, weighted: true}, L: 2},
+		{s: graphSpace{n: 3, weighted: true}, L: 2},
+		{s: graphSpace{n: 4}, L: 2, stride: vlib.Pick(g, 2, 1)},
+		{s: graphSpace{n: 2, directed: true}, L: 2},
+		{s: graphSpace{n: 2, directed: true, weighted: true}, L: 2},
+		{s: graphSpace{n: 3, directed: true}, L: 2, stride: vlib.Pick(g, 3, 1), offset: vlib.Pick(g, 2, 0)},
+		{s: graphSpace{n: 3, directed: true, weighted: true}, L: 2, stride: vlib.Pick(g, 499, 29), offset: 17},
+		{s: graphSpace{n: 4, weighted: true}, L: 2, stride: vlib.Pick(g, 1999, 101), offset: 101},
+		// three layers
+		{s: graphSpace{n: 2}, L: 3}, {s: graphSpace{n: 3}, L: 3},
+		{s: graphSpace{n: 2, weighted: true}, L: 3},
+		{s: graphSpace{n: 2, directed: true}, L: 3},
+		{s: graphSpace{n: 3, weighted: true}, L: 3, stride: vlib.Pick(g, 37, 5), offset: 4},
+		{s: graphSpace{n: 3, directed: true}, L: 3, stride: vlib.Pick(g, 499, 61), offset: 9},
+		{s: graphSpace{n: 4}, L: 3, stride: vlib.Pick(g, 997, 101), offset: 33},
 	} {
 		x := x
-		forLayerPairs(x.s, x.stride, x.offset, func(key string, i0, i1, idKind, order int) {
-			g.Case(key, func(t *vlib.T) { checkQMultiplex(t, x.s, i0, i1, idKind, order) })
+		forLayerTuples(x.s, x.L, x.stride, x.offset, func(key string, idxs []int, idKind, order int) {
+			g.Case(key, func(t *vlib.T) { checkQMultiplex(t, x.s, idxs, idKind, order) })
 		})
 		if g.Stopped() {
 			return
@@ -335,6 +392,9 @@ type level struct {
 	from   func(l int, x int64) []int64
 	to     func(l int, x int64) []int64 // nil for undirected
 	q      func(cs [][]graph.Node) []float64
+	// Size/Weight (SizeMultiplex/WeightMultiplex) of the level, set for the top level only.
+	sizeScore, weightScore float64
+	scored                 bool
 }
 
 func idsOf(it graph.Nodes) []int64 {
@@ -628,6 +688,38 @@ func checkLevels(in *louvainInput, ls []level) (msg string, depth int) {
 				return fmt.Sprintf("%s layer %d: Q(reduced graph, Structure()) = %v, Q of Communities() %v on the original graph from scratch = %v", where, l, gotQ[l], comm, want), len(ls)
 			}
 		}
+		// 5b. the score helpers: Size = 1/#communities, Weight = sum of the
+		// weights inside the nodes of the level (all ordered pairs, all layers
+		// with a non-zero layer weight, signed).
+		if lv.scored {
+			if want := 1 / float64(len(lv.structure)); lv.sizeScore != want {
+				return fmt.Sprintf("%s: Size = %v, 1/len(Structure()) = %v", where, lv.sizeScore, want), len(ls)
+			}
+			var want float64
+			if len(ls) > 1 { // the base level carries no node weights
+				for l, sp := range in.layers {
+					if in.layerWeight(l) == 0 {
+						continue
+					}
+					for _, ms := range members {
+						for _, u := range ms {
+							for _, v := range ms {
+								if sp.has(u, v) {
+									if in.multi && in.layerWeight(l) < 0 {
+										want -= math.Abs(sp.a(u, v))
+									} else {
+										want += math.Abs(sp.a(u, v))
+									}
+								}
+							}
+						}
+					}
+				}
+			}
+			if lv.weightScore != want {
+				return fmt.Sprintf("%s: Weight = %v, the weights inside the nodes of the level sum to %v", where, lv.weightScore, want), len(ls)
+			}
+		}
 		// 6. levels never get worse
 		q := in.qTotal(comm)
 		if !(q >= qPrev-1e-12) {
@@ -852,7 +944,9 @@ func checkLouvain(t *vlib.T, b *built, maxDev, maxRuns int) {
 		in := &louvainInput{n: sp.n, directed: sp.directed, ids: b.ids, layers: []*spec{sp}, res: []float64{gamma}}
 		before := t.Failed()
 		exploreLouvain(t, fmt.Sprintf("Modularize(%s, resolution %v)", sp, gamma), in, func(src rand.Source) []level {
-			ls := levelsOfReduced(community.Modularize(b.g, gamma, src), gamma)
+			r := community.Modularize(b.g, gamma, src)
+			ls := levelsOfReduced(r, gamma)
+			ls[0].sizeScore, ls[0].weightScore, ls[0].scored = community.Size(r), community.Weight(r), true
 			if len(ls) > maxLevels {
 				maxLevels = len(ls)
 			}
@@ -883,8 +977,8 @@ func genLouvain(g *vlib.G) {
 		{graphSpace{n: 2, directed: true}, 2, 0}, {graphSpace{n: 3, directed: true}, 2, 0},
 		{graphSpace{n: 2, directed: true, weighted: true}, 2, 0}, {graphSpace{n: 3, directed: true, weighted: true}, 2, 0},
 		{graphSpace{n: 4, directed: true, stride: vlib.Pick(g, 2, 1), offset: vlib.Pick(g, 1, 0), rotate: true}, 2, 4000},
-		{graphSpace{n: 5, weighted: true, stride: vlib.Pick(g, 499, 11), offset: 8}, vlib.Pick(g, 1, 2), 4000},
-		{graphSpace{n: 4, directed: true, weighted: true, stride: vlib.Pick(g, 4999, 101), offset: 100}, vlib.Pick(g, 1, 2), 4000},
+		{graphSpace{n: 5, weighted: true, stride: vlib.Pick(g, 149, 7), offset: 8}, 2, 4000},
+		{graphSpace{n: 4, directed: true, weighted: true, stride: vlib.Pick(g, 997, 61), offset: 100}, 2, 4000},
 	}
 	for _, x := range spaces {
 		x := x
@@ -899,25 +993,34 @@ func genLouvain(g *vlib.G) {
 
 // ---- ModularizeMultiplex ----
 
-func checkLouvainMultiplex(t *vlib.T, s graphSpace, i0, i1, idKind, order, wi int, maxDev, maxRuns int) {
-	ws := weightOptions()[wi]
-	m := buildMultiplex(s, i0, i1, ws, idKind, order)
+func checkLouvainMultiplex(t *vlib.T, s graphSpace, idxs []int, idKind, order, wi int, maxDev, maxRuns int) {
+	L := len(idxs)
+	ws := weightOptions(L)[wi]
+	m := buildMultiplex(s, idxs, ws, idKind, order)
 	maxLevels := 0
-	// resolutions and the "search all communities" flag rotate with the pair
+	// resolutions and the "search all communities" flag rotate with the tuple
 	combos := []struct {
 		res []float64
 		all bool
-	}{{nil, false}, {[]float64{2}, true}, {[]float64{0.5, 2}, false}, {[]float64{1, 0.5}, true}}
+	}{{nil, false}, {[]float64{2}, true}, {[]float64{0.5, 2, 1}[:L], false}, {[]float64{1, 0.5, 2}[:L], true}}
+	sum := wi
+	for _, i := range idxs {
+		sum += i
+	}
 	for ci, c := range combos {
-		if (i0+i1+wi+ci)%2 == 1 {
+		if (sum+ci)%2 == 1 {
 			continue
 		}
 		c := c
-		in := &louvainInput{n: s.n, directed: s.directed, ids: m.ids, layers: m.sp[:], ws: ws, multi: true,
-			res: []float64{layerRes(c.res, 0), layerRes(c.res, 1)}}
+		in := &louvainInput{n: s.n, directed: s.directed, ids: m.ids, layers: m.sp, ws: ws, multi: true}
+		for l := 0; l < L; l++ {
+			in.res = append(in.res, layerRes(c.res, l))
+		}
 		before := t.Failed()
-		exploreLouvain(t, fmt.Sprintf("ModularizeMultiplex(layers %s | %s, weights %v, resolutions %v, all=%v)", m.sp[0], m.sp[1], ws, c.res, c.all), in, func(src rand.Source) []level {
-			ls := levelsOfMultiplex(community.ModularizeMultiplex(m.g, ws, c.res, c.all, src), ws, c.res)
+		exploreLouvain(t, fmt.Sprintf("ModularizeMultiplex(layers %s, weights %v, resolutions %v, all=%v)", m, ws, c.res, c.all), in, func(src rand.Source) []level {
+			r := community.ModularizeMultiplex(m.g, ws, c.res, c.all, src)
+			ls := levelsOfMultiplex(r, ws, c.res)
+			ls[0].sizeScore, ls[0].weightScore, ls[0].scored = community.SizeMultiplex(r), community.WeightMultiplex(r), true
 			if len(ls) > maxLevels {
 				maxLevels = len(ls)
 			}
@@ -936,37 +1039,45 @@ func checkLouvainMultiplex(t *vlib.T, s graphSpace, i0, i1, idKind, order, wi in
 			neg++
 		}
 	}
-	t.Outcome(fmt.Sprintf("%s levels=%d negativeLayers=%d nilWeights=%v emptyLayer0=%v", s.name(), maxLevels, neg, ws == nil, m.sp[0].edges() == 0))
-	t.Detail(map[string]any{"layer0": m.sp[0].String(), "layer1": m.sp[1].String(), "weights": ws, "ids": m.ids})
+	t.Outcome(fmt.Sprintf("%s layers=%d levels=%d negativeLayers=%d nilWeights=%v emptyLayer0=%v", s.name(), L, maxLevels, neg, ws == nil, m.sp[0].edges() == 0))
+	t.Detail(map[string]any{"layers": m.String(), "weights": ws, "ids": m.ids})
 }
 
 func genLouvainMultiplex(g *vlib.G) {
-	type sp struct {
-		s               graphSpace
-		stride, offset  int
-		maxDev, maxRuns int
-	}
-	for _, x := range []sp{
-		{graphSpace{n: 2}, 1, 0, 2, 0},
-		{graphSpace{n: 3}, 1, 0, 2, 0},
-		{graphSpace{n: 3, weighted: true}, vlib.Pick(g, 5, 1), vlib.Pick(g, 3, 0), vlib.Pick(g, 1, 2), 0},
-		{graphSpace{n: 4}, vlib.Pick(g, 3, 1), vlib.Pick(g, 2, 0), vlib.Pick(g, 1, 2), 3000},
-		{graphSpace{n: 2, directed: true}, 1, 0, 2, 0},
-		{graphSpace{n: 2, directed: true, weighted: true}, 1, 0, 2, 0},
-		{graphSpace{n: 3, directed: true}, vlib.Pick(g, 2, 1), vlib.Pick(g, 1, 0), vlib.Pick(g, 1, 2), 3000},
-		{graphSpace{n: 3, directed: true, weighted: true}, vlib.Pick(g, 1009, 211), 31, 1, 3000},
+	for _, x := range []tupleSpace{
+		{s: graphSpace{n: 2}, L: 2, maxDev: 2},
+		{s: graphSpace{n: 3}, L: 2, maxDev: 2},
+		{s: graphSpace{n: 3, weighted: true}, L: 2, stride: vlib.Pick(g, 3, 1), offset: vlib.Pick(g, 1, 0), maxDev: 2},
+		{s: graphSpace{n: 4}, L: 2, stride: vlib.Pick(g, 3, 1), offset: vlib.Pick(g, 2, 0), maxDev: 2, maxRuns: 3000},
+		{s: graphSpace{n: 2, directed: true}, L: 2, maxDev: 2},
+		{s: graphSpace{n: 2, directed: true, weighted: true}, L: 2, maxDev: 2},
+		{s: graphSpace{n: 3, directed: true}, L: 2, stride: vlib.Pick(g, 2, 1), offset: vlib.Pick(g, 1, 0), maxDev: 2, maxRuns: 3000},
+		{s: graphSpace{n: 3, directed: true, weighted: true}, L: 2, stride: vlib.Pick(g, 1009, 211), offset: 31, maxDev: vlib.Pick(g, 1, 2), maxRuns: 3000},
+		{s: graphSpace{n: 4, weighted: true}, L: 2, stride: vlib.Pick(g, 3989, 499), offset: 77, maxDev: vlib.Pick(g, 1, 2), maxRuns: 3000},
+		// three layers
+		{s: graphSpace{n: 2}, L: 3, maxDev: 2},
+		{s: graphSpace{n: 3}, L: 3, stride: vlib.Pick(g, 2, 1), maxDev: 2},
+		{s: graphSpace{n: 2, directed: true}, L: 3, maxDev: 2},
+		{s: graphSpace{n: 3, weighted: true}, L: 3, stride: vlib.Pick(g, 199, 23), offset: 5, maxDev: 2},
+		{s: graphSpace{n: 3, directed: true}, L: 3, stride: vlib.Pick(g, 1999, 211), offset: 13, maxDev: 2, maxRuns: 3000},
+		{s: graphSpace{n: 4}, L: 3, stride: vlib.Pick(g, 1999, 211), offset: 21, maxDev: 2, maxRuns: 3000},
 	} {
 		x := x
-		nw := len(weightOptions())
-		forLayerPairs(x.s, x.stride, x.offset, func(key string, i0, i1, idKind, order int) {
+		nw := len(weightOptions(x.L))
+		forLayerTuples(x.s, x.L, x.stride, x.offset, func(key string, idxs []int, idKind, order int) {
+			sum := 0
+			for _, i := range idxs {
+				sum += i
+			}
 			for wi := 0; wi < nw; wi++ {
 				wi := wi
-				// strided spaces: the pair rotates through the weight vectors, a third of them per pair
-				if !g.Thorough() && x.stride > 1 && (wi+i0+i1)%3 != 0 {
+				// strided spaces and three layers: the tuple rotates through the
+				// weight vectors, a third of them per tuple (thorough: all for two layers)
+				if (x.L == 3 || (!g.Thorough() && x.stride > 1)) && (wi+sum)%3 != 0 {
 					continue
 				}
 				g.Case(fmt.Sprintf("%s w%d", key, wi), func(t *vlib.T) {
-					checkLouvainMultiplex(t, x.s, i0, i1, idKind, order, wi, x.maxDev, x.maxRuns)
+					checkLouvainMultiplex(t, x.s, idxs, idKind, order, wi, x.maxDev, x.maxRuns)
 				})
 			}
 		})
